@@ -5,6 +5,7 @@ import (
 	"sync"
 
 	"github.com/elliotchance/orderedmap/v3"
+	"github.com/mitchellh/hashstructure/v2"
 	"gopkg.in/yaml.v3"
 
 	"github.com/go-task/task/v3/errors"
@@ -131,6 +132,19 @@ func (vars *Vars) Merge(other *Vars, include *Include) {
 		}
 		vars.om.Set(pair.Key, pair.Value)
 	}
+}
+
+// Hash implements the hashstructure.Hashable interface. The ordered map is
+// unexported, so without it hashing a task would ignore the values of its
+// variables: two calls of a run: when_changed task that differ only in
+// variables that do not end up in a command string would count as the same.
+func (vars *Vars) Hash() (uint64, error) {
+	// The order in which variables were set is not part of the identity
+	m := make(map[string]Var, vars.Len())
+	for k, v := range vars.All() {
+		m[k] = v
+	}
+	return hashstructure.Hash(m, hashstructure.FormatV2, nil)
 }
 
 func (vs *Vars) DeepCopy() *Vars {
